@@ -751,7 +751,7 @@ pub fn check() -> Check {
     Check {
         id: "C17",
         level: "exploration",
-        rule: "per run: a seeded async program (2-4 futures spawned with shuttle::future::spawn or run by block_on in extra threads; hand-written waker futures that register before/after checking and are woken from other tasks, self-waking futures, futures that return Pending without a waker, select with the loser dropped, nested block_on, yield_now) with faults abort (also repeated, through AbortHandle, before the first poll / while sleeping / after completion) and detach (drop of the JoinHandle) at drawn points; every task future is wrapped to log poll starts/ends, completion and drop. Oracle: result delivered exactly once and truthfully; Cancelled iff the abort took effect before completion (no poll starts after abort() returned; a poll already in progress may complete); a cancelled future is dropped and performs no further step; nobody's future is dropped without an abort; the final verdict is exact: a task listed in a deadlock report must be suspended in an operation whose wake-up condition does not hold. Distinct = (program, chosen sequence); non-trivial = at least one switch",
+        rule: "per run: a seeded async program (2-4 futures spawned with shuttle::future::spawn or run by block_on in extra threads; hand-written waker futures that register before/after checking and are woken from other tasks, self-waking futures, futures that return Pending without a waker, select with the loser dropped, nested block_on, yield_now, a JoinHandle polled once under a throw-away waker before it is awaited, task-locals whose destructors have scheduling points) with faults abort (also repeated, through AbortHandle, before the first poll / while sleeping / after completion) and detach (drop of the JoinHandle) at drawn points; every task future is wrapped to log poll starts/ends, completion and drop. Oracle: result delivered exactly once and truthfully; Cancelled iff the abort took effect before completion (no poll starts after abort() returned; a poll already in progress may complete); a cancelled future is dropped and performs no further step; nobody's future is dropped without an abort; the final verdict is exact: a task listed in a deadlock report must be suspended in an operation whose wake-up condition does not hold. Distinct = (program, chosen sequence); non-trivial = at least one switch",
         assumptions: &["step-level enabledness of async tasks is not modelled; lost wake-ups are detected at the end of the execution (the task stays pending although its condition holds)", "futures moved between tasks after their first poll are covered by C18 (SemCancel) and C19"],
         real_components: "real: shuttle-engine executor (Task::from_future, wakers, sleep_unless_woken, block_on), shuttle-std future (spawn, JoinHandle, AbortHandle, Wrapper); stub: none",
         batches: |t: Tier| vec![Batch::new("async", t.pick(20000, 400000), 400), Batch::new("known", 4, 4)],
